@@ -13,7 +13,7 @@ META = {
     'required_obs': {'quick': ['c09-lf', 'c09-origin-last', 'c09-origin-not-first', 'c09-multi-origin-sets', 'c09-named-set',
                                'c09-multi-lf', 'header-change-then-rewrite', 'empty-set-name', 'set-renamed-after-creation',
                                'retried-after-rejected-call', 'origin-file-set-number-left-to-library', 'file-header-given-as-object',
-                               'file-header-identifier-chosen']},
+                               'file-header-identifier-chosen', 'rejected-call-never-repeated']},
     'assumptions': [],
 }
 META['required_obs']['thorough'] = META['required_obs']['quick']
